@@ -909,9 +909,25 @@ fn gen_font(rng: &mut Rng) -> (Vec<u8>, Vec<u8>, usize, String) {
                 gs = gs.into_iter().map(|g| match g { G::Empty => G::Empty, g => { let raw = enc_plain_glyph(&g); G::Present { nc: i16::from_be_bytes([raw[0], raw[1]]), raw } } }).collect();
             }
             let plain = gs.iter().any(|g| matches!(g, G::Present { .. }));
-            let hm = gen_hm(rng, &gs);
             let long = rng.chance(1, 2);
-            let glyf_transformed = !plain && rng.chance(3, 4);
+            let big = !long && !plain && rng.chance(1, 60);
+            if big {
+                // short offsets in head, but a glyf table that is rebuilt around the 131070-byte limit of the
+                // short loca format (instructions make glyphs big cheaply): the decoder must switch BOTH loca and
+                // head.indexToLocFormat to the long format, or neither
+                let target = 120_000 + rng.below(30_000) as usize;
+                let mut total = 0usize;
+                while total < target {
+                    let n = 20_000 + rng.below(25_000) as usize;
+                    let mut g = gen_simple(rng);
+                    g.instr = rng.bytes(n);
+                    total += n;
+                    gs.push(G::Simple(g));
+                }
+            }
+            let hm = gen_hm(rng, &gs);
+            // (a plain glyf table beyond 131070 bytes cannot go with short offsets: only the transformed form is legal)
+            let glyf_transformed = big || (!plain && rng.chance(3, 4));
             let hmtx_transformed = rng.chance(1, 2);
             let (pg, offs) = enc_plain_glyf(&gs, if long { *rng.pick(&[1usize, 2, 4]) } else { *rng.pick(&[2usize, 4]) });
             let pl = enc_loca(&offs, long);
